@@ -8,14 +8,15 @@ import shutil
 import tempfile
 
 from . import pool, stage, tlcrun
-from .common import SPEC, log, scratch, Timer
+from .common import MachineryFailure, SPEC, log, scratch, Timer
 
 PARAMS = {"quick": dict(max_steps=3, all_paths=False), "thorough": dict(max_steps=4, all_paths=True)}
 
 # (Opt "a" | "a" "b": a shift / EMPTY-reduction conflict, so that prefer_shifts and prefer_shifts_over_empty give different tables)
 ROOT = 'import "imp.pg";\nS: A "x" | "y" T | E | Opt "a" | "a" "b";\nOpt: "q" | EMPTY;\nT: A "z" | C;\nA: "d";\nC: "d" "e";\nE: E "+" E | E "-" E | imp.N%s;\n'
 IMP = 'import "leaf.pg";\nN: "n" | leaf.M%s;\n'
-LEAF = 'M: "m"%s;\n'
+# (an edit of leaf.pg changes only a state four tokens deep, i.e. the END of the serialised table: old and new table share a long prefix)
+LEAF = 'M: "m" "m2" "m3" K;\nK: "k"%s;\n'
 OPTS = {
     "lr": ("lr", {}),
     "glr": ("glr", {}),
@@ -103,6 +104,39 @@ class Crash(Exception):
     pass
 
 
+class _CrashingFile:
+    """a text file that accepts `budget` more characters and then fails (the process 'dies' in the middle of a write)"""
+
+    def __init__(self, f, budget):
+        self.f, self.budget = f, budget
+
+    def write(self, data):
+        if len(data) > self.budget:
+            self.f.write(data[:self.budget])
+            self.f.flush()
+            self.budget = 0
+            raise Crash()
+        self.budget -= len(data)
+        return self.f.write(data)
+
+    def __enter__(self):
+        return self
+
+    def __exit__(self, *exc):
+        self.f.close()
+        return False
+
+    def __getattr__(self, name):
+        return getattr(self.f, name)
+
+
+def _crashing_open(budget):
+    def _open(file, mode="r", *a, **kw):
+        f = open(file, mode, *a, **kw)
+        return _CrashingFile(f, budget) if any(c in mode for c in "wa+x") else f
+    return _open
+
+
 _fresh_cache = {}
 
 
@@ -139,6 +173,7 @@ def replay(job):
     """Replay one path on a real directory.  Returns the trace [{act, arg, reply, pst, writer}]."""
     from . import real
     import parglare.tables as T
+    import parglare.tables.persist as P
     from parglare.tables.persist import table_to_serializable
 
     path = job["path"]
@@ -167,13 +202,17 @@ def replay(job):
                 crash = act == "DoCrash"
 
                 def save(file_name, table, crash=crash, clock=clock, step=step):
-                    data = json.dumps(table_to_serializable(table), sort_keys=True)
                     if crash:
-                        k = [len(data) // 2, len(data) - 1, max(1, len(data) // 7)][step % 3]
-                        with open(file_name, "w") as f:
-                            f.write(data[:k])
-                        os.utime(file_name, (clock, clock))
-                        raise Crash()
+                        # the REAL save_table runs and dies after k bytes have reached the file (whatever way it opens and writes it: round-5
+                        # seeded change C12-i rewrote an existing file in place, so that a crash left new[:k] + old[k:])
+                        n = len(json.dumps(table_to_serializable(table), sort_keys=True))
+                        P.open = _crashing_open([n // 2, n - 1, max(1, n // 7)][step % 3])
+                        try:
+                            orig(file_name, table)
+                        finally:
+                            del P.open
+                            os.utime(file_name, (clock, clock))
+                        raise MachineryFailure("save_table wrote the whole table although the file was to fail after k bytes")
                     orig(file_name, table)
                     os.utime(file_name, (clock, clock))
                 T.save_table = save
@@ -458,6 +497,12 @@ def build(tier, seed):
     _check_distinct()
     init, nodes, edges, gstats = graph(p["max_steps"])
     paths = paths_from(init, nodes, edges, p["all_paths"])
+    # directed histories beyond the quick depth: a cache exists, a grammar file is edited, the rebuild dies while writing, the next construction
+    # must not see what the dead one left (round-5 seeded change C12-i: a rewrite in place left the complete old table under a new mtime)
+    directed = [[("DoConstruct", o), ("DoEdit", f), ("DoCrash", o2), ("DoConstruct", o3)] + tail
+                for o in ("lr", "glr") for f in ("root", "imp", "leaf") for o2 in ("lr", "glr") for o3 in ("lr", "glr")
+                for tail in ([], [("DoConstruct", o3)])]
+    paths += [d for d in directed if d not in paths]
     log("cache graph: %d states, %d transitions, %d paths to replay" % (len(nodes), sum(len(v) for v in edges.values()), len(paths)))
     traces = pool.flatten(pool.run_jobs("stage_cache", "replay", [{"path": pth} for pth in paths], chunksize=8))
     log("cache paths replayed on the real code in %.1fs" % t.s())
@@ -474,6 +519,9 @@ def build(tier, seed):
     _check_hints_distinct(p["max_steps"])
     hinit, hnodes, hedges, hstats = graph(p["max_steps"], "HintCache", ("HintCacheTransparent.cfg", "HintCacheNegImports.cfg", "HintCacheNegPrefix.cfg"))
     hpaths = paths_from(hinit, hnodes, hedges, p["all_paths"])
+    hdirected = [[("DoConstruct", o), (e, f), ("DoCrash", o2), ("DoConstruct", o2)]
+                 for o in H_KINDS for e, f in (("DoEdit", "root"), ("DoEdit", "imp"), ("DoEditHints", "")) for o2 in H_KINDS]
+    hpaths += [d for d in hdirected if d not in hpaths]
     log("hint cache graph: %d states, %d transitions, %d paths to replay" % (len(hnodes), sum(len(x) for x in hedges.values()), len(hpaths)))
     htraces = pool.flatten(pool.run_jobs("stage_cache", "hint_replay", [{"path": pth} for pth in hpaths], chunksize=8))
     shards = tlcrun.write_shards(htraces, scratch() + "/hcachetrace", max_bytes=2_000_000, min_shards=8)
